@@ -296,7 +296,9 @@ func (e *Exec) frameFormula(fr *Frame, st *State, h string) (string, bool) {
 		excl = append(excl, fmt.Sprintf("(not (= %s %s))", q, t.ref))
 	}
 	existed := e.existedAtEntry(q, a0)
-	if strings.HasPrefix(h, "G_") || strings.HasPrefix(h, "GU_") || strings.HasPrefix(h, "GB_") || strings.HasPrefix(h, "HP_") {
+	// ghost maps keyed by values (connection ids, arbitrary ghost keys) have no notion of "new object";
+	// the ghost state of a bytes.Buffer (GB_) is keyed by the buffer object and follows the object rule
+	if strings.HasPrefix(h, "G_") || strings.HasPrefix(h, "GU_") || strings.HasPrefix(h, "HP_") {
 		existed = "true"
 	}
 	body := implies(and(append([]string{existed}, excl...)...), eq(sel(cur, q), sel(old, q)))
